@@ -49,11 +49,32 @@ func registerFmt(in *Interp) {
 	I["fmt.Fprintln"] = func(in *Interp, fr *frame, fn *ssa.Function, a []value) value {
 		return in.writeTo(fr, a[0].(iface), in.sprint(fr, sliceArg(a[1]), true))
 	}
-	I["fmt.Printf"] = func(in *Interp, fr *frame, fn *ssa.Function, a []value) value {
-		return tuple{int64(0), iface{}}
+	// fmt.Print* write to the process's standard output, a file of the file-system model
+	// (so that a command or importer printing besides its result is observable)
+	toStdout := func(in *Interp, s value) value {
+		if in.run == nil {
+			return tuple{int64(0), iface{}}
+		}
+		st := in.fs()
+		f := st.files["/dev/stdout"]
+		if f == nil {
+			f = &fsFile{exists: true}
+			st.files["/dev/stdout"] = f
+		}
+		e := strElems(s)
+		f.data = append(f.data, e...)
+		return tuple{int64(len(e)), iface{}}
 	}
-	I["fmt.Println"] = I["fmt.Printf"]
-	I["fmt.Print"] = I["fmt.Printf"]
+	I["fmt.Printf"] = func(in *Interp, fr *frame, fn *ssa.Function, a []value) value {
+		s, _ := in.sprintf(fr, a[0], sliceArg(a[1]))
+		return toStdout(in, s)
+	}
+	I["fmt.Println"] = func(in *Interp, fr *frame, fn *ssa.Function, a []value) value {
+		return toStdout(in, in.sprint(fr, sliceArg(a[0]), true))
+	}
+	I["fmt.Print"] = func(in *Interp, fr *frame, fn *ssa.Function, a []value) value {
+		return toStdout(in, in.sprint(fr, sliceArg(a[0]), false))
+	}
 	I["io.WriteString"] = func(in *Interp, fr *frame, fn *ssa.Function, a []value) value {
 		return in.writeTo(fr, a[0].(iface), a[1])
 	}
